@@ -5,6 +5,7 @@
 mod exec;
 mod gen;
 mod reparse;
+mod shrink;
 mod tt;
 
 use std::io::{BufRead, BufReader, Write};
@@ -231,6 +232,31 @@ fn arg(args: &[String], name: &str) -> Option<String> {
 }
 
 fn main() {
+    if std::env::var("VERIF_LOG").map_or(false, |v| v == "1") {
+        // every debug!/trace! call of the crate under test evaluates and formats its arguments
+        struct Null(usize);
+        impl std::fmt::Write for Null {
+            fn write_str(&mut self, s: &str) -> std::fmt::Result {
+                self.0 += s.len();
+                Ok(())
+            }
+        }
+        struct Sink;
+        impl log::Log for Sink {
+            fn enabled(&self, _: &log::Metadata) -> bool {
+                true
+            }
+            fn log(&self, r: &log::Record) {
+                use std::fmt::Write;
+                let mut n = Null(0);
+                let _ = write!(n, "{}", r.args());
+            }
+            fn flush(&self) {}
+        }
+        static SINK: Sink = Sink;
+        let _ = log::set_logger(&SINK);
+        log::set_max_level(log::LevelFilter::Trace);
+    }
     if std::env::var("VERIF_PANIC_MSG").is_err() {
         std::panic::set_hook(Box::new(|_| {}));
     }
@@ -250,6 +276,27 @@ fn main() {
                 let l = l.unwrap();
                 let r = ex.step(l.trim_end());
                 let _ = writeln!(out, "{}", r);
+            }
+        }
+        "shrink" => {
+            // shrink <file> --prop Cxx --out <file> [--budget-s n]: a smaller history on which an oracle
+            // still reports a failure of the property (no driver involved)
+            let file = args.get(2).expect("file");
+            let prop = arg(&args, "--prop").expect("--prop");
+            let out = arg(&args, "--out").expect("--out");
+            let budget: u64 = arg(&args, "--budget-s").and_then(|s| s.parse().ok()).unwrap_or(20);
+            let text = std::fs::read_to_string(file).expect("read ops file");
+            let lines: Vec<String> = text.lines().filter(|l| !l.starts_with('#') && !l.trim().is_empty()).map(|l| l.to_string()).collect();
+            let prop_static: &'static str = Box::leak(prop.clone().into_boxed_str());
+            match shrink::shrink(&lines, prop_static, std::time::Duration::from_secs(budget)) {
+                Some((min, tests)) => {
+                    std::fs::write(&out, min.join("\n") + "\n").unwrap();
+                    println!("shrunk {} -> {} lines ({} candidate runs)", lines.len(), min.len(), tests);
+                }
+                None => {
+                    println!("not shrunk: the oracle failure does not reproduce from the file alone");
+                    std::process::exit(2);
+                }
             }
         }
         "replay" => {
